@@ -877,6 +877,11 @@ def run_threads(ctx, rng, job):
     IP = util.mkiface('IP', module=mod)
     specs = [util.mkiface('IS%d' % i, (IR0,), module=mod) for i in range(40)]
     do_flood = job.get('flood', False)
+    adaptees = []
+    for i in range(4):
+        K_ = type('KA%d' % i, (), {})
+        classImplements(K_, specs[i])
+        adaptees.append(K_())
 
     class Lk(Base.LookupClass):
         def changed(self, originally_changed=None):
@@ -921,6 +926,23 @@ def run_threads(ctx, rng, job):
                     if not (1 <= len(su) <= 2 and su[0] is vals[0] and (len(su) == 1 or g0 - 1 <= su[1].tag <= gen[0] + 1)):
                         local_err.append(('subscriptions', repr(su), g0, gen[0]))
                     n += 2
+                    # the single-object entry points (their own C code paths and cache), names(), and the calling forms
+                    g0 = gen[0]
+                    v1 = r.lookup1(s, IP)
+                    if v1 is None or not (g0 - 1 <= v1.tag <= gen[0] + 1):
+                        local_err.append(('lookup1', repr(v1), g0, gen[0]))
+                    g0 = gen[0]
+                    made = r.adapter_hook(IP, adaptees[k % len(adaptees)])
+                    if not (isinstance(made, tuple) and made[0] == 'made' and g0 - 1 <= made[1] <= gen[0] + 1):
+                        local_err.append(('adapter_hook', repr(made), g0, gen[0]))
+                    g0 = gen[0]
+                    made = r.queryMultiAdapter((adaptees[k % len(adaptees)],), IP)
+                    if not (isinstance(made, tuple) and made[0] == 'made' and g0 - 1 <= made[1] <= gen[0] + 1):
+                        local_err.append(('queryMultiAdapter', repr(made), g0, gen[0]))
+                    nm_ = r.names([s], IP)
+                    if list(nm_) != ['']:
+                        local_err.append(('names', repr(nm_), g0, gen[0]))
+                    n += 4
                     if local_err:
                         break
                 if local_err:
